@@ -31,7 +31,8 @@ fn pick_id(rng: &mut Rng, st: &RealState) -> usize {
 
 pub fn random_op(rng: &mut Rng, st: &RealState) -> String {
     let slots = slots_of(&st.tree);
-    match rng.below(16) {
+    match rng.below(17) {
+        16 => format!("ar.setname\t{}\t{}", pick_id(rng, st), if rng.chance(1, 8) { "-".to_string() } else { format!("h{}", hex(&format!("R{}", rng.below(100000)))) }),
         0 | 1 => format!("ar.add_child\t{}\t{}\t{}", pick_id(rng, st), len_tok(rng), if rng.chance(1, 2) { format!("h{}", hex(&format!("N{}", rng.below(1000)))) } else { "-".into() }),
         2 | 3 | 4 => format!("ar.prune\t{}", pick_id(rng, st)),
         5 | 6 => "ar.compress".into(),
@@ -86,7 +87,7 @@ fn all_ops(st: &RealState) -> Vec<String> {
 }
 
 fn is_structural(cmd: &str) -> bool {
-    !(cmd.starts_with("ar.rescale") || cmd.starts_with("ar.reset_depths") || cmd.starts_with("ar.dump") || cmd.starts_with("ar.inv"))
+    !(cmd.starts_with("ar.rescale") || cmd.starts_with("ar.setname") || cmd.starts_with("ar.reset_depths") || cmd.starts_with("ar.dump") || cmd.starts_with("ar.inv"))
 }
 
 /// executes one history on a fresh real state; oracle = invariant on the real arena after every step
@@ -232,7 +233,7 @@ pub fn run(cfg: &Cfg, rep: &mut Report) {
                         let size = if w % 5 == 0 { rng.range(1, 8) } else { rng.range(2, max_size) };
                         let mut shape = random_shape(&mut rng, size);
                         lbl(&mut shape, &mut rng);
-                        let how = *rng.pick(&["api", "bfs", "tomb", "parse", "merge2", "grown"]);
+                        let how = *rng.pick(&["api", "bfs", "tomb", "parse", "merge2", "grown", "bottomup"]);
                         if how == "merge2" {
                             while shape.kids.len() > 2 {
                                 shape.kids.pop();
